@@ -189,11 +189,50 @@ class Module:
                 module=self.name, qualname=qn, node=seg, source=fi.source, sha256=fi.sha256, lineno=w_.lineno,
                 cls=fi.cls, decorators=[])
 
+    def _cm_sections(self, fi: FunctionInfo):
+        """Generator-based context managers (`@contextmanager` / `@asynccontextmanager`) with exactly one `yield`,
+        which is a statement of the function body or of the body of a top-level `try`: `<qualname>#enter` is the code
+        run on entry (the statements before the yield), `<qualname>#exit` the code run on every exit (the `finally`
+        block of that try and what follows it; without a try, the statements after the yield), each as a function of
+        the same parameters.  Dropped by the extraction: the yield itself (the caller's block), `except` handlers and
+        the `else` block of the try (a function that has them is not extracted)."""
+        if not any(d.split(".")[-1] in ("contextmanager", "asynccontextmanager") for d in fi.decorators):
+            return
+        yields = [n for n in ast.walk(fi.node) if isinstance(n, (ast.Yield, ast.YieldFrom))]
+        if len(yields) != 1:
+            return
+
+        def is_yield_stmt(st):
+            return isinstance(st, ast.Expr) and st.value is yields[0]
+
+        body = [st for st in fi.node.body
+                if not (isinstance(st, ast.Expr) and isinstance(st.value, ast.Constant) and isinstance(st.value.value, str))]
+        enter = exit_ = None
+        for i, st in enumerate(body):
+            if is_yield_stmt(st):
+                enter, exit_ = body[:i], body[i + 1:]
+            elif isinstance(st, ast.Try) and not st.handlers and not st.orelse:
+                for j, st2 in enumerate(st.body):
+                    if is_yield_stmt(st2) and j == len(st.body) - 1:
+                        enter, exit_ = body[:i] + st.body[:j], list(st.finalbody) + body[i + 1:]
+        if enter is None:
+            return
+        for tag, stmts in (("enter", enter), ("exit", exit_)):
+            stmts = list(stmts) or [ast.Pass(lineno=fi.node.lineno, col_offset=0, end_lineno=fi.node.lineno, end_col_offset=0)]
+            seg = ast.FunctionDef(name=f"{fi.node.name}#{tag}", args=fi.node.args, body=stmts, decorator_list=[],
+                                  returns=None, type_comment=None, type_params=[], lineno=stmts[0].lineno,
+                                  col_offset=fi.node.col_offset, end_lineno=stmts[-1].end_lineno,
+                                  end_col_offset=stmts[-1].end_col_offset)
+            qn = f"{fi.qualname}#{tag}"
+            self.functions[qn] = FunctionInfo(module=self.name, qualname=qn, node=seg, source=fi.source,
+                                              sha256=fi.sha256, lineno=seg.lineno, cls=fi.cls, decorators=[])
+
     def _scan(self, body):
         for st in body:
             if isinstance(st, (ast.FunctionDef, ast.AsyncFunctionDef)):
                 self.functions[st.name] = self._fn(st)
                 self._segments(self.functions[st.name])
+                self._cm_sections(self.functions[st.name])
             elif isinstance(st, ast.ClassDef):
                 self._scan_class(st)
             elif isinstance(st, ast.Assign) and len(st.targets) == 1 and isinstance(st.targets[0], ast.Name):
@@ -265,6 +304,7 @@ class Module:
                 methods[st.name] = fi
                 self.functions[fi.qualname] = fi
                 self._segments(fi)
+                self._cm_sections(fi)
         self.classes[node.name] = ClassInfo(
             module=self.name, name=node.name, node=node, bases=bases, kind=kind,
             frozen=frozen, fields=fields, methods=methods, enum_members=enum_members,
